@@ -10,11 +10,20 @@ import re
 import cli
 from vlib import ToolError, workdir, write_jsonl, validate_trace
 
-SIZES = [0, 1, 65535, 65536, 65537, 131072]
+SIZES = [0, 1, 65535, 65536, 65537, 131072, 1048576]      # k*65536 also at 1 MiB, where output pre-sizing might start
 
 
 def _plain(n, salt):
-    return bytes((i * 31 + 7 * salt + (i >> 8)) % 256 for i in range(n))
+    """Contents vary too: mixed bytes, all zeros (disk images, sparse files), mixed with a long run of zeros at the end, 0xff."""
+    kind = salt % 4
+    if kind == 1:
+        return bytes(n)
+    if kind == 3:
+        return b"\xff" * n
+    b = bytes((i * 31 + 7 * salt + (i >> 8)) % 256 for i in range(n))
+    if kind == 2 and n > 20000:
+        return b[:n - 16384] + bytes(16384)
+    return b
 
 
 def one(pid, tpl, seed, keys, prop, mode, plen, wiring, history, idx):
